@@ -43,6 +43,9 @@ def stepW (w : World) (j : Json) : Except String World := do
   | "branch" =>
     let name ← (← j.getObjVal? "name").getStr?
     pure { w.set name w.here with cur := name }
+  | "mkbranch" =>
+    let name ← (← j.getObjVal? "name").getStr?
+    pure (w.set name w.here)
   | "switch" =>
     let name ← (← j.getObjVal? "name").getStr?
     pure { w with cur := name }
@@ -51,6 +54,18 @@ def stepW (w : World) (j : Json) : Except String World := do
   | "stashPush" => pure (w.rop .stashPush)
   | "stashPop" => pure (w.rop (.stashPop (← natsOf (← j.getObjVal? "ys"))))
   | "aborted" => pure (w.rop .aborted)
+  | "switchCarry" =>
+    -- the working tree goes along: the state under the new name is the carried one
+    let name ← (← j.getObjVal? "name").getStr?
+    let other := w.get name
+    let r := rstep { st := w.here, stash := w.stash } (.switchCarry other.log other.notes other.head)
+    pure { w.set name r.st with cur := name }
+  | "switchMerge" =>
+    let name ← (← j.getObjVal? "name").getStr?
+    let other := w.get name
+    let r := rstep { st := w.here, stash := w.stash }
+      (.switchMerge other.log other.notes other.head (← natsOf (← j.getObjVal? "ys")))
+    pure { w.set name r.st with cur := name }
   | "rebase" =>
     let onto := w.get (← (← j.getObjVal? "onto").getStr?)
     let drop ← getNatField j "drop"
